@@ -236,6 +236,8 @@ impl TopicCleanTracker {
         thread::spawn(move || {
             let mut pending = HashSet::new();
             loop {
+                #[cfg(walrus_verif)]
+                crate::wal::verif::clean_gate_top(&|| weak.strong_count() > 0);
                 match rx.recv_timeout(Duration::from_millis(5)) {
                     Ok(topic) => {
                         pending.insert(topic);
@@ -250,6 +252,8 @@ impl TopicCleanTracker {
                     continue;
                 }
                 if let Some(strong) = weak.upgrade() {
+                    #[cfg(walrus_verif)]
+                    crate::wal::verif::clean_gate_upgraded();
                     if let Err(err) = strong.persist_topics(&pending) {
                         debug_print!("[clean] persist error: {}", err);
                     }
